@@ -64,7 +64,7 @@ def _run_history(world: AggWorld, acts, tid):
     return {"id": tid, "ev": evs}
 
 
-def _random_history(rnd, n):
+def _random_history(rnd, n, tags=True):
     """a plausible engine life with disconnects / restarts / duplicated and late messages thrown in"""
     acts = []
     started, stopped, eng, nstart, conn, t = [], [], None, 0, False, 0
@@ -93,6 +93,8 @@ def _random_history(rnd, n):
             acts.append(("RunStarted", [rnd.choice(started)]))        # duplicate / late
         elif k < 0.40 and stopped:
             acts.append(("RunStopped", [rnd.choice(stopped)]))
+        elif not tags:
+            continue
         else:
             t += rnd.choice([0, 1, 1, 2, 3])
             tt = max(1, t - (rnd.choice([0, 0, 0, 1, 2])))             # sometimes a stale report
@@ -132,6 +134,10 @@ def _run(ctx: core.Ctx) -> core.Outcome:
         rnd = random.Random(ctx.seed)
         for i in range(150 if ctx.quick else 3000):
             traces.append(_run_history(world, _random_history(rnd, 40), f"rnd{i}"))
+            world.fresh_db() if i % 50 == 49 else world.boot()
+        # life-cycle only histories (no tag traffic): long chains of start / stop / disconnect / restart / resends
+        for i in range(300 if ctx.quick else 5000):
+            traces.append(_run_history(world, _random_history(rnd, 60, tags=False), f"life{i}"))
             world.fresh_db() if i % 50 == 49 else world.boot()
     finally:
         world.close()
